@@ -66,6 +66,7 @@ func (r *c10RW) Write(b []byte) (int, error) {
 }
 
 var c10URI = regexp.MustCompile(`^/streams/live/a/(\d+)\.ts(\?token=(.*))?$`)
+var c10URIp = regexp.MustCompile(`^/streams/live/p/(\d+)\.ts(\?token=(.*))?$`)
 
 func buildC10(tier string) sim.Scenario {
 	var s *media.Stream
